@@ -4,14 +4,14 @@ from .. import model
 from . import gsim as G
 
 CLAIM = dict(
-    text="Coq theorems about the executable model of the derivation graph of Ovld objects (Model/Graph.v: own tables with the same-signature push-down, mixins, children, linkback, recursive lock, compile snapshot, _update propagation incl. after add_mixins), as invariants of every finite operation sequence from the empty graph: the effective table is the parents' effective tables overlaid by the own one (own wins, later mixin over earlier); an operation on N leaves the observable of every node that does not derive from N unchanged, and of every used node not reached from N through linkback derivations; first use changes no observable; a locked node refuses every modification; FULL lock: once a node is in use, every function it derives from through a path whose first derivation is not a linkback one is locked (plain paths of any length, plain-then-linkback paths), and a locked function never derives from a modifiable one; after register / unregister / add_mixins every linkback descendant is up to date; histories outside the one remaining finding class (KF-43: a used linkback derivation of a never-used plain copy) keep every used node equal to the overlay. The model follows the repaired code (KF-18, KF-40 fixed) and is tied to /repo on every run: random histories over <= 6 functions replayed from scratch after every step, every node probed on every signature (whole call_next chain, 'No method', 'locked'), compared with the extracted model and with the property oracles evaluated on the implementation alone.",
-    note="Trusted: Coq kernel, extraction, OCaml driver, the hand-written model (validated by the correspondence), the harness. Abstraction: a node's behaviour is its effective table (signature key -> method); that dispatch depends on the table only is the Resolve component's business. Partial: 'a used node always equals the overlay' is still false of the code in one class (KF-43).",
+    text="Coq theorems about the executable model of the derivation graph of Ovld objects (Model/Graph.v: own tables with the same-signature push-down, mixins, children, linkback, recursive lock, _lock_parents, compile snapshot, _update propagation incl. after add_mixins), as invariants of every finite operation sequence from the empty graph, all at full strength: the effective table is the parents' effective tables overlaid by the own one (own wins, later mixin over earlier), and every node's observable always is that overlay (no node is ever out of date); an operation on N leaves the observable of every node that does not derive from N unchanged, and of every used node not reached from N through linkback derivations; first use changes no observable; a locked node refuses every modification; once a node is in use, for every non-linkback node v it derives from through linkback derivations only (itself included) every parent of v and everything that parent derives from is locked, so a still modifiable ancestor of a used node always reaches it by propagation; after register / unregister / add_mixins every linkback descendant is up to date. The model follows the repaired code (KF-18, KF-40, KF-43 fixed) and is tied to /repo on every run: random histories over <= 6 functions replayed from scratch after every step, every node probed on every signature (whole call_next chain, 'No method', 'locked'), compared with the extracted model and with the property oracles evaluated on the implementation alone.",
+    note="Trusted: Coq kernel, extraction, OCaml driver, the hand-written model (validated by the correspondence), the harness. Abstraction: a node's behaviour is its effective table (signature key -> method); that dispatch depends on the table only is the Resolve component's business. No partial theorem is left for C16: the former finding classes KF-18, KF-40, KF-43 are repaired and kept as must-pass replays.",
     technique="Coq proof (invariants over fold_left of the step function, fuelled traversals) + differential correspondence with scratch replays",
     design="6 C16")
 
-THEOREMS = ["C16_never_stuck", "C16_overlay", "C16_overlay_used_partial", "C16_overlay_refuted_unused_link",
+THEOREMS = ["C16_never_stuck", "C16_overlay", "C16_overlay_used", "C16_always_fresh",
             "C16_isolation", "C16_isolation_used", "C16_use_invisible", "C16_refused_unchanged", "C16_locked_refuses",
-            "C16_lock", "C16_lock_plain_paths", "C16_lock_closed", "C16_linkback"]
+            "C16_lock", "C16_modifiable_reaches", "C16_lock_plain_paths", "C16_lock_closed", "C16_linkback"]
 ASSUMPTIONS = [
     "a node's behaviour is represented by its effective table (signature key incl. tiebreak -> method label); resolution itself is not modelled here (the probes use single-inheritance chains of classes, where the chain of call_next is determined by the table)",
     "histories never close a cycle of mixins (add_mixins of a descendant): the real code then recurses forever in defns (RecursionError); the model refuses such a step as Invalid, and the harness checks that agreement on a separate stream",
@@ -116,13 +116,12 @@ def check_history(ctx, ops, mres, stats=None, report=True):
 
     spec = G.Spec()
     prev_probes, prev_locks = [], []
-    causes = collections.defaultdict(set)
     if len(mres) != len(ops):
         bad("model returned a different number of steps", 0, "correspondence")
         return fails
     for k, op in enumerate(ops):
         out, locks, probes = G.observe(ops, k)
-        m_out, m_nodes, m_exposed = mres[k]
+        m_out, m_nodes = mres[k]
         outc = out if isinstance(out, int) else 9
         t = op[0]
         if stats is not None:
@@ -169,23 +168,20 @@ def check_history(ctx, ops, mres, stats=None, report=True):
                 bad(f"step {k} {OPN[t]} on {N} changed the behaviour of node {m} ({'not derived from it' if m not in desc else 'used, not linked back'})", k)
             if not performed and locks[m] != prev_locks[m]:
                 bad(f"step {k}: refused/invalid operation changed the lock of node {m}", k)
-        # lock: once a node is in use, its direct non-linkback parents and everything they derive from refuse modification
+        # lock: once c is in use, every non-linkback node v that c derives from through linkback derivations only (c
+        # included) has all its parents, and everything they derive from, locked
         for c in range(spec.n()):
-            if not spec.used[c] or spec.lb[c]:
+            if not spec.used[c]:
                 continue
-            for m in spec.mixins[c]:
-                for a in {m} | spec.ancestors(m):
-                    if locks[a] != 1:
-                        bad(f"step {k}: node {a} is (an ancestor of) a non-linkback parent of used node {c} and is not locked", k)
-                    elif stats is not None:
-                        stats["lock_checks"] += 1
-        # cause bookkeeping for out-of-date nodes: the model's classifiers on this step
-        if performed:
-            for c in m_exposed:
-                causes[c].add("KF-43")
-        for n in range(len(m_nodes)):
-            if m_nodes[n][2] == 1:
-                causes[n] = set()
+            for v in [c] + [w for w in range(spec.n()) if c in spec.lb_descendants(w)]:
+                if spec.lb[v]:
+                    continue
+                for m in spec.mixins[v]:
+                    for a in {m} | spec.ancestors(m):
+                        if locks[a] != 1:
+                            bad(f"step {k}: node {a} is (an ancestor of) a parent of the non-linkback node {v} from which used node {c} derives by linkback, and is not locked", k)
+                        elif stats is not None:
+                            stats["lock_checks"] += 1
         # linkback: after a change of N every linkback descendant shows it
         refs = [G.ref_probe(spec.entries(n)) for n in range(spec.n())]
         if performed and (t in (4, 5) or (t == 3 and any(m != N for m in op[2:]))):
@@ -200,13 +196,7 @@ def check_history(ctx, ops, mres, stats=None, report=True):
                 continue
             if stats is not None:
                 stats["stale_observations"] += 1
-            if not spec.used[n]:
-                bad(f"step {k}: unused node {n} answers {probes[n]}, the overlay of its method sets gives {refs[n]}", k)
-            elif not causes[n]:
-                bad(f"step {k}: used node {n} is out of date ({probes[n]} vs overlay {refs[n]}) outside the known finding classes", k)
-            else:
-                for kf in sorted(causes[n]):
-                    known(kf, k)
+            bad(f"step {k}: {'used' if spec.used[n] else 'unused'} node {n} answers {probes[n]}, the overlay of its method sets gives {refs[n]}", k)
         prev_probes, prev_locks = probes, locks
     return fails
 
@@ -320,7 +310,7 @@ def run(ctx):
            "outcome_histogram": {k[8:]: v for k, v in stats.items() if k.startswith("outcome:")},
            "histories_with_linkback": stats["histories_with_linkback"],
            "histories_with_use_in_first_half": stats["histories_used_before_modification"],
-           "out_of_date_observations_attributed": stats["stale_observations"],
+           "out_of_date_observations": stats["stale_observations"],
            "lock_checks": stats["lock_checks"], "linkback_checks": stats["linkback_checks"],
            "cycle_guard_cases": stats["cycle_guard_cases"], "vm_compute_crosscheck_cases": cross}
     if exhaustive:
